@@ -8,7 +8,8 @@ from harness import coqio
 from harness.common import Check
 
 THEOREMS = ["C13_unrank_arith", "C13_unique", "C13_unique_rejects", "C13_unique_slices", "C13_unique_slices_upto_24", "C13_random_range", "C13_random_cover",
-            "C13_conv_unique", "C13_conv_unique_rejects", "C13_positions_distinct", "C13_tree", "C13_unique_cover", "C13_unique_cover_all_refuted"]
+            "C13_conv_unique", "C13_conv_unique_rejects", "C13_positions_distinct", "C13_tree", "C13_unique_cover", "C13_unique_cover_all_refuted", "C13_tree_count", "C13_tree_levels_halve",
+            "C13_documented_count_refuted"]
 TRUSTED = [
     "Coq 8.16.1 kernel/coqc; theorems closed under the global context; the slice-level mirror of get_unique_connections equals the closed form for every size (C13_unique_slices; the computation up to in_dim 24 is kept as a cross-check); vm_compute for kernel evaluation of the model",
     "hand-written model Model/Wiring.v tied by exact equality with layer.indices / kernel_pairs of real constructors run under recorded "
@@ -223,6 +224,15 @@ def conv_cases(ck):
             if li.tolist() != list(range(0, size, 2)) or ri.tolist() != list(range(1, size, 2)):
                 ck.disagree("tree level wiring is not the full binary tree", dict(case, level=level, left=li.tolist(), right=ri.tolist()),
                             signature={"scheme": "tree"})
+        # gate and input count of one kernel: 2^(depth+1) - 1 gates on 2^(depth+1) window positions (theorem C13_tree_count)
+        n_gates = sum(len(lv) for lv in l.tree_weights)
+        n_reads = 2 * pa.shape[1]
+        ck.count("tree_count_cases")
+        if n_gates != 2 ** (depth + 1) - 1 or n_reads != 2 ** (depth + 1) or len(l.tree_weights) != depth + 1 or \
+                [len(lv) for lv in l.tree_weights] != [2 ** (depth - j) for j in range(depth + 1)]:
+            ck.disagree("the gates of a kernel are not a full binary tree over its 2^depth first-level gates",
+                        dict(case, gates=n_gates, reads=n_reads, levels=[len(lv) for lv in l.tree_weights]),
+                        signature={"scheme": "tree", "what": "count"})
         # range of absolute indices
         ia, ib = l.indices[0]
         pad = l.padding or 0
